@@ -36,6 +36,11 @@ func vConcOp(w *vWorld, tag string, pre []*vUp, kinds int) {
 		_ = w.m.Endpoints()
 		_ = w.cs.Nodes()
 		_ = w.gs.Delta(w.gs.Digest(), true)
+		_, _ = w.gs.Node("local")
+		_ = w.gs.LocalNode()
+		_ = w.gs.Nodes()
+		_, _ = w.cs.Node("r")
+		_, _ = w.cs.LookupEndpoint(w.ids[0])
 	}
 }
 
